@@ -317,7 +317,51 @@ def f6_f7(prog, ctx):
         ctx.fail("F7", "a parsed object carries the path that was opened", (ps[0] if ps else rf).where, "path stores: %s" % [render(s) for s in ps], key="path-store")
 
 
+def f6b_f7b(prog, ctx):
+    """F6b  merging the history is a function of the elements' NAMES and ORDER only: merge_econf_files takes no decision on what
+    an element contains (its length, its entries) and does not rewrite the list it is given - otherwise the merged read and a
+    merge of the history the caller sees differ.   F7b  the path of an element is the name it was found under (= C01.L16)."""
+    m = prog.fn("merge_econf_files")
+    ctx.touch(m)
+    cfg = m.cfg
+    K = m.params[0]["name"]
+    bad = None
+    for (b, i, s2) in cfg.edges():
+        lit = cfg.edge_lit(b, i)
+        if lit is None:
+            continue
+        if re.search(r"->(length|alloc_length|file_entry|group_count|groups)\b", lit.atom):
+            bad = bad or (cfg.blocks[b].cond, "takes a decision on `%s`" % lit.atom)
+    for lhs, rhs, st, kind in query.stores(m):
+        l = lhs.strip()
+        root, sel = query.lvalue_root(l)
+        if root is None:
+            continue
+        # a store INTO the list (an element slot), through the parameter or a pointer derived from it
+        if kind == "=" and (l.k == "UnaryOperator" and l.j.get("op") == "*" or l.k == "ArraySubscriptExpr") and (l.j.get("ct") or "").replace("struct ", "") in ("econf_file *",):
+            if render(l) != "*merged_files":
+                bad = bad or (st, "rewrites the list it merges (`%s`)" % render(st))
+    if bad:
+        ctx.fail("F6", "the merge depends on names and order only", bad[0].where,
+                 "merge_econf_files %s: the merged read then differs from merging the history that econf_readDirsHistory() hands out (e.g. an empty "
+                 "/etc drop-in no longer masks the vendor file of the same name)" % bad[1], key="merge-content-dependent")
+    else:
+        ctx.ok("F6", "the merge depends on names and order only", m.where, "no branch on an element's content, no store into the list")
+    try:
+        from sa.report import Ctx as _Ctx
+        from rules import C01 as _C01
+        sub = _Ctx(ctx.prop, ctx.tier, prog)
+        _C01.l15_l17(prog, sub)
+        for ob in sub.obs:
+            if ob.rule == "L16":
+                ob.rule = "F7"
+                ctx.obs.append(ob)
+    except Inconclusive as e:
+        ctx.inconclusive("F7", "the path of an element is the name it was found under", "", str(e))
+
+
 def run(prog, ctx):
+    f6b_f7b(prog, ctx)
     f1_f3_f5(prog, ctx)
     f2(prog, ctx)
     f4(prog, ctx)
